@@ -502,6 +502,8 @@ def xml_attr(b):
     return xml_esc(b).replace(b'"', b"&quot;")
 
 
+EXTS = [b".csv", b".CSV", b".txt", b".dat", b"", b".xrff", b".XRFF", b".Xrff", b".xml", b".XML", b".xMl", b".xmlx",
+        b".xrf", b".tsv", b".xrff2"]
 VOID_TYPES = [b"date", b"relational", b"", None, b"Numeric", b"STRING", b"int", b"nominal "]
 
 
@@ -924,7 +926,7 @@ def nontrivial(kind, ln, answer):
     """csv / xrff / var: the import succeeded with at least one example and two columns;
     parse: the text has a quote; sniff: the file has at least two lines."""
     t = ln.split()
-    if kind in ("csv", "xrff"):
+    if kind in ("csv", "xrff", "file"):
         d = parse_dump(answer) if answer.startswith("ok") else None
         return d is not None and len(d["examples"]) >= 1 and len(d["cols"]) >= 2
     if kind == "var":
@@ -963,7 +965,8 @@ def run(chk, replay=None):
                             examples=[(x[0], tuple(x[1])) for x in e["examples"]])
             return e
         exp = thaw(exp)
-        cases.append((k, rp["line"], None if k == "xrff" else rp["line"], exp, {"replay": True}))
+        cases.append((k, rp["line"], None if k in ("xrff", "file") or rp["line"].startswith("var2 xrff")
+                      else rp["line"], exp, {"replay": True}))
     else:
         cdir = os.path.join(C.ROOT, "corpus", "C09")
         if os.path.isdir(cdir):
@@ -1026,6 +1029,15 @@ def run(chk, replay=None):
             if i % 3 == 0:
                 xd, xexp = render_xrff(rng, T)
                 cases.append(("xrff", xrff_line(rng, T, xd), None, xexp, {"T": T, "xml": xd}))
+                if i % 6 == 0:
+                    # dataframe::read(path, params): the extension of the file name chooses the format
+                    ext = rng.choice(EXTS)
+                    as_x = rng.chance(0.5)
+                    isx = ext.lower() in (b".xrff", b".xml")
+                    content = xd if as_x else data
+                    fexp = (xexp if as_x else exp) if isx == as_x else None
+                    ln = "file %s %s %s" % (hx(ext), csv_line(T, data).split(" ", 1)[1].rsplit(" ", 1)[0], hx(content))
+                    cases.append(("file", ln, None, fexp, {"T": T, "ext": ext, "content": "xrff" if as_x else "csv"}))
         for _ in range(1000 if quick else 12000):
             data, d, h = gen_unambiguous(rng)
             ln = "sniff " + hx(data)
@@ -1044,7 +1056,7 @@ def run(chk, replay=None):
     # ---- run ---------------------------------------------------------------
     cpp, deaths = S.cpp([c[1] for c in cases])
     # XRFF: the model starts from the document tinyxml2 produced
-    xi = [i for i, c in enumerate(cases) if (c[0] == "xrff" or c[1].startswith("var2 xrff")) and c[2] is None]
+    xi = [i for i, c in enumerate(cases) if (c[0] in ("xrff", "file") or c[1].startswith("var2 xrff")) and c[2] is None]
     if xi:
         docs, _ = S.cpp(["xdoc " + cases[i][1].split()[-1] for i in xi])
         for i, dline in zip(xi, docs):
@@ -1054,6 +1066,8 @@ def run(chk, replay=None):
             t = c[1].split()
             if t[0] == "var2":       # var2 xrff <hook> <typing> <doc tokens>
                 ml = "var2 xrff %s %s %s" % (t[7], t[8], " ".join(toks[1:])) if toks and toks[0] == "doc" else None
+            elif t[0] == "file":     # the model decides the format: it gets the bytes and the document
+                ml = "%s X %s" % (c[1], " ".join(toks[1:])) if toks and toks[0] == "doc" else None
             else:
                 ml = "%s %s %s" % (t[0], t[-2], " ".join(toks[1:])) if toks and toks[0] == "doc" else None
             cases[i] = (c[0], c[1], ml, c[3], c[4])
@@ -1071,6 +1085,8 @@ def run(chk, replay=None):
         chk.count("kind:" + kind)
         chk.count("cpp:" + (a.split()[0] if a.split() else "empty"))
         tags = {"kind": kind}
+        if kind == "file" and "ext" in info:
+            chk.count("file:extension=%s,content=%s" % (info["ext"].decode() or "none", info["content"]))
         if kind in ("csv", "xrff") and "T" in info:
             sn = cpp[info["sniff_at"]] if "sniff_at" in info and info["sniff_at"] < len(cpp) else None
             count_params(chk, kind, info["T"], exp, sn)
@@ -1147,7 +1163,7 @@ def run(chk, replay=None):
         if i in model:
             m = model[i]
             same = False
-            if kind in ("csv", "xrff"):
+            if kind in ("csv", "xrff", "file"):
                 pm, pc = parse_dump(m) if m.startswith("ok") else None, parse_dump(a) if a.startswith("ok") else None
                 if pm is not None and pc is not None:
                     same = first_diff(pm, pc) is None
